@@ -128,7 +128,12 @@ def _wiring(ctx, P):
                     bad = "the data is not stripped of its coordinates before padding"
                 if c.get("padding_width") != widths:
                     bad = bad or f"widths {c.get('padding_width')!r} instead of the requested {widths!r}"
-                if c.get("padding") != {AX: "fill", AY: DEFAULTS["boundary"]["AY"]} or c.get("fill_value") != {AX: DEFAULTS["fill_value"]["AX"], AY: DEFAULTS["fill_value"]["AY"]}:
+                want_f = {AX: DEFAULTS["fill_value"]["AX"], AY: DEFAULTS["fill_value"]["AY"]}
+                got_f = c.get("fill_value")
+                if c.get("__fill_only_where_constant__") and isinstance(got_f, dict) and isinstance(c.get("padding"), dict):
+                    # a table of xarray.pad arguments carries a fill value only for the axes that are filled
+                    got_f = {k: (v if c["padding"].get(k) == "fill" else want_f.get(k)) for k, v in got_f.items()}
+                if c.get("padding") != {AX: "fill", AY: DEFAULTS["boundary"]["AY"]} or got_f != want_f:
                     bad = bad or f"rule / fill value in force do not reach the face-connection padding ({c.get('padding')!r}, {c.get('fill_value')!r})"
                 if c.get("other_component") != Sym("USER_OTHER"):
                     bad = bad or "other_component does not reach the face-connection padding"
